@@ -29,6 +29,8 @@ type c12Case struct {
 	amount  uint64
 	rich    bool // wallet with practically unlimited balance
 	feeEst  string
+	// extraMsat is added to the claim invoice the scripted maker sends (0 = exactly amount+premium)
+	extraMsat uint64
 }
 
 func runC12(r *Run, seed int64, c c12Case) {
@@ -142,7 +144,7 @@ func runC12(r *Run, seed int64, c c12Case) {
 		// the maker announces an opening tx for the requested amount and an invoice for whatever the
 		// taker's own arithmetic makes of amount+premium
 		claimSat := uint64(int64(c.amount) + c.premium)
-		inv := w.LN.NewInvoice(mal.ID, claimSat*1000, "", sm.SwapId.String(), "claim", 1, 3600, map[string]int64{"btc": 503, "lbtc": 29}[c.chain])
+		inv := w.LN.NewInvoice(mal.ID, claimSat*1000+c.extraMsat, "", sm.SwapId.String(), "claim", 1, 3600, map[string]int64{"btc": 503, "lbtc": 29}[c.chain])
 		pk := refPk(unhex(rq.Pubkey), pub, unhex(inv.Hash), ref.CSV(c.chain, 7))
 		var txHex string
 		if c.chain == "btc" {
@@ -258,7 +260,7 @@ func c12FeeClass(fee, own uint64) string {
 func TestC12(t *testing.T) {
 	r := newRun(t, "C12", "exploration")
 	defer r.Finish()
-	r.Rule = "a real initiator (swap-out: pays fee and claim invoices; swap-in: funds the opening output and creates the claim invoice) against a scripted responder choosing the premium in {-2^63, -amount-1, -amount, -1, 0, limit, limit+1, 2^63-1, random}, fee invoices in {0, est, 3est, 3est+1, huge}, fee estimates {normal, 0, 1, error}, limit rates up to ±10^6 ppm, amounts up to 2^63/1000 sat, wallets with finite and practically unlimited balance; every money-moving crossing is compared with the statement's bounds in math/big. The responder clause (premium charged = rate arithmetic) is checked on every agreement of the C11 workload. distinct = (chain, role, premium class, fee class / wallet, paid / opened)"
+	r.Rule = "a real initiator (swap-out: pays fee and claim invoices; swap-in: funds the opening output and creates the claim invoice) against a scripted responder choosing the premium in {-2^63, -amount-1, -amount, -1, 0, limit, limit+1, 2^63-1, random}, fee invoices in {0, est, 3est, 3est+1, huge}, claim invoices of amount+premium plus {0, 1, 500, 999, 1000} msat, fee estimates {normal, 0, 1, error}, limit rates up to ±10^6 ppm, amounts up to 2^63/1000 sat, wallets with finite and practically unlimited balance; every money-moving crossing is compared with the statement's bounds in math/big. The responder clause (premium charged = rate arithmetic) is checked on every agreement of the C11 workload. distinct = (chain, role, premium class, fee class / wallet, paid / opened)"
 	r.Assumptions = []string{"own opening-fee estimate read from the node's wallet object", "value locked on Liquid read by unblinding with the announced blinding key (go-elements)"}
 	rng := mrand.New(mrand.NewSource(r.Seed + 12))
 	var cases []c12Case
@@ -275,6 +277,7 @@ func TestC12(t *testing.T) {
 			est = 300
 		}
 		c.feeSat = pick(rng, uint64(0), est/2, est, 3*est, 3*est+1, 100*est, 1<<40)
+		c.extraMsat = pick(rng, uint64(0), 0, 0, 0, 1, 500, 999, 1000)
 		cases = append(cases, c)
 	}
 	parallelDo(len(cases), 12, func(i int) { runC12(r, r.Seed*7121+int64(i)+1, cases[i]) })
